@@ -388,6 +388,7 @@ pub fn project(text: &str, wgsl_source: &str) -> Result<Value, String> {
     let mut items_order: Vec<String> = vec![];
     let mut struct_sec: Vec<String> = vec![];
     let mut rest_sec: Vec<String> = vec![];
+    let mut nosource_sec: Vec<String> = vec![];
     let mut create_shader_module = Value::Null;
     let mut top_mods = vec![];
 
@@ -527,6 +528,10 @@ pub fn project(text: &str, wgsl_source: &str) -> Result<Value, String> {
         }
         let mut v = Vec::new();
         norm_tokens(item.to_token_stream(), &mut v);
+        let is_source = matches!(item, syn::Item::Const(c) if c.ident == "SOURCE");
+        if !is_source {
+            nosource_sec.extend(v.iter().cloned());
+        }
         if is_struct_sec {
             struct_sec.extend(v);
         } else {
@@ -541,7 +546,7 @@ pub fn project(text: &str, wgsl_source: &str) -> Result<Value, String> {
         "overrides": overrides, "override_consts_fn": override_consts_fn,
         "create_shader_module": create_shader_module,
         "items": items_order, "mods": top_mods,
-        "structs_sha": hash_strs(&struct_sec), "rest_sha": hash_strs(&rest_sec),
+        "structs_sha": hash_strs(&struct_sec), "rest_sha": hash_strs(&rest_sec), "nosource_sha": hash_strs(&nosource_sec),
     }))
 }
 
